@@ -47,7 +47,11 @@ type Svc struct {
 	// OnRequest, if set, runs (without the lock) after request number n (1-based,
 	// counted since the last ResetCount) has been logged and before it is answered.
 	OnRequest func(n int, name string)
-	count     int
+	// OnAnswered, if set, runs (without the lock) right before request number n
+	// returns an answer (a value or "not changed"), i.e. strictly between two
+	// requests of a sequential client.
+	OnAnswered func(n int, name string)
+	count      int
 	// MaxRequests bounds the requests of one scenario (default 50000). A client
 	// that exceeds it is spinning; further requests park until Release so that
 	// virtual time can advance and the harness can report it.
@@ -206,12 +210,21 @@ func (s *Svc) do(ctx context.Context, op, name string, old api.SecretVersion) (*
 		finish("error:notfound", nil)
 		return nil, api.ErrNotFound
 	}
+	s.mu.Lock()
+	answered := s.OnAnswered
+	s.mu.Unlock()
 	if op == "cond" && old != 0 && v.Version == old {
 		finish("notchanged", nil)
+		if answered != nil {
+			answered(n, name)
+		}
 		return nil, api.ErrValueNotChanged
 	}
 	out := &api.SecretValue{Version: v.Version, Value: append([]byte{}, v.Value...)}
 	finish(fmt.Sprintf("value:%d", v.Version), out)
+	if answered != nil {
+		answered(n, name)
+	}
 	return out, nil
 }
 
